@@ -564,6 +564,10 @@ func runAlgDiff(outDir string, seed int64, tier string) {
 							a.rng.Read(p)
 							data[[]string{"a.txt", "file with spaces.bin", "ünï.dat", "b"}[m]] = p
 						}
+						if b == 0 {
+							// a text as people sign them: blanks in front, a newline at its end - every byte of it is part of what is signed
+							data["blanks around.txt"] = []byte(" \t a text that ends in a newline and starts with blanks\r\n")
+						}
 						batch, want, berrs = a.signBatch(c, round, a.rng.Intn(cf.n), data, [2]int{}, signers, late, a.rng.Intn(2) == 0)
 					}
 					a.st.Batches++
